@@ -6,10 +6,16 @@ from fractions import Fraction
 from props.common import *  # noqa: F401,F403
 
 RULE = ("valid graphs from the generator, whose ancestry DAGs favour the coincidence 'descendant start == ancestor "
-        "end'; a case is one graph; non-trivial = at least one deme has ancestors; distinct by ancestry structure")
-ASSUMPTIONS = ["children of a Split come out of a Python set: compared as sorted lists"]
-EXPLANATION = ("Theorems pred_is_ancestors, succ_is_transpose, pred_succ_total, events_spec(_ordered), events_partition(_count) "
-               "over the Lean Model; Model tied to the code by exact comparison; the classification rules re-evaluated "
+        "end'; a case is one graph; non-trivial = at least one deme has ancestors; distinct by ancestry structure. "
+        "Second stream: Split / Branch / Merge / Admix records constructed directly over a grid of valid and invalid "
+        "field values; a case is one constructor call; non-trivial = every one; distinct by class and fields")
+ASSUMPTIONS = ["children of a Split come out of a Python set: compared as sorted lists",
+               "record grid: proportions are dyadic, so Python's float sum is the exact sum the Model computes; "
+               "names are ASCII; a field outside the wire typing (non-str name, non-list, non-number) counts as refused"]
+EXPLANATION = ("Theorems pred_is_ancestors, succ_is_transpose, pred_succ_total, events_spec(_ordered), events_partition(_count), "
+               "events_records_valid, events_checked_total/_spec and the record-predicate lemmas "
+               "over the Lean Model; Model tied to the code by exact comparison (views, events, the validating events "
+               "function, and accept/reject of every record class over a field grid); the classification rules re-evaluated "
                "on the code's own output.")
 
 
@@ -54,20 +60,148 @@ def spec_check(g, pred, succ, ev):
     return None
 
 
+def record_fields(kind, rec):
+    """the constructor arguments of a real record object"""
+    if kind == "split":
+        return {"parent": rec.parent, "children": rec.children, "time": rec.time}
+    if kind == "branch":
+        return {"parent": rec.parent, "child": rec.child, "time": rec.time}
+    return {"parents": rec.parents, "proportions": rec.proportions, "child": rec.child, "time": rec.time}
+
+
+RECORD_CLASS = {"split": "Split", "branch": "Branch", "merge": "Merge", "admix": "Admix"}
+EVENT_KIND = {"splits": "split", "branches": "branch", "mergers": "merge", "admixtures": "admix"}
+
+
+def record_request(kind, fields):
+    return {"op": "record_ok", "kind": kind, "fields": enc(fields)}
+
+
+def real_record_accepts(kind, fields):
+    """does demes.demes.<Class>(**fields) return?  (any exception = the record is refused)"""
+    import demes.demes as dd
+    try:
+        getattr(dd, RECORD_CLASS[kind])(**copy.deepcopy(fields))
+        return True, None
+    except Exception as e:  # noqa: BLE001
+        return False, type(e).__name__
+
+
+def record_repro(kind, fields):
+    return ("/venv/bin/python -c \"import demes.demes as dd, math; inf=math.inf; nan=math.nan; "
+            f"print(dd.{RECORD_CLASS[kind]}(**{fields!r}))\"")
+
+
+def record_grid(ctx):
+    """(kind, fields) over a grid of valid and invalid field values (see RULE)"""
+    e31, e29 = 2.0 ** -31, 2.0 ** -29
+    times = [-1, -0.0, 0, 1.5, 100, math.inf, -math.inf, math.nan, True]
+    out = []
+    for parent in ["A", "1a", "", 3]:
+        for children in [[], ["B"], ["B", "C"], ["B", "B"], ["A", "B"], ["B", "1a"], ["B", ""], ["_b", "C9"], "B", ["B", 7]]:
+            for time in times + ["1", None]:
+                out.append(("split", {"parent": parent, "children": children, "time": time}))
+    for parent in ["A", "1a", "a b"]:
+        for child in ["B", "A", "a b", "", None]:
+            for time in times:
+                out.append(("branch", {"parent": parent, "child": child, "time": time}))
+    props = [[], [1], [0.5, 0.5], [0.5, 0.5 + e31], [0.5, 0.5 - e31], [0.5, 0.5 + e29], [0.5, 0.5 - e29],
+             [1, 0], [0, 1], [1.5, -0.5], [0.25, 0.25, 0.5], [0.5, 0.5, 0.5], [0.25, 0.75 + e31, 0.0], [0.5, math.nan],
+             [math.inf, 0.5], [math.inf, -math.inf], [0.125, 0.875], [0.25, 0.25, 0.25, 0.25], ["0.5", 0.5], 1.0]
+    for kind in ("merge", "admix"):
+        for parents in [[], ["A"], ["A", "B"], ["A", "A"], ["A", "B", "C"], ["A", "C"], ["A", "1a"], ["A", "B", "D", "E"], "AB"]:
+            for proportions in props:
+                for child in ["Z", "C", "1a"]:
+                    for time in [0, 10, -1, math.inf, math.nan]:
+                        out.append((kind, {"parents": parents, "proportions": proportions, "child": child, "time": time}))
+    if ctx.tier != "quick":
+        names = ["A", "B", "C", "D", "_e", "f1", "1a", "", "a-b"]
+        tms = times + [2.0 ** -40, 1e300, -1e-300]
+        dy = [0, 0.125, 0.25, 0.375, 0.5, 0.625, 0.75, 1, 1 + e31, 0.5 + e31, 0.5 - e29, -0.25, 1.25, math.nan, math.inf]
+        for _ in range(30000):
+            k = ctx.rng.choice(["split", "branch", "merge", "admix"])
+            if k == "split":
+                f = {"parent": ctx.rng.choice(names), "children": [ctx.rng.choice(names) for _ in range(ctx.rng.randint(0, 3))],
+                     "time": ctx.rng.choice(tms)}
+            elif k == "branch":
+                f = {"parent": ctx.rng.choice(names), "child": ctx.rng.choice(names), "time": ctx.rng.choice(tms)}
+            elif ctx.rng.random() < 0.5:
+                # near a valid record: distinct parents, positive eighths summing to 1 (± a perturbation), a child outside
+                kk = ctx.rng.randint(2, 4)
+                ps = ctx.rng.sample(names[:6], kk)
+                cuts = sorted(ctx.rng.sample(range(1, 8), kk - 1))
+                pr = [(b - a) / 8 for a, b in zip([0] + cuts, cuts + [8])]
+                pr[-1] += ctx.rng.choice([0, 0, 0, e31, -e31, e29, -e29])
+                f = {"parents": ps, "proportions": pr, "child": ctx.rng.choice([x for x in names[:6] if x not in ps] + ["1a"]),
+                     "time": ctx.rng.choice(tms)}
+                if ctx.rng.random() < 0.3:
+                    f["parents"] = ps[:-1] + [ctx.rng.choice(ps)]
+                if ctx.rng.random() < 0.15:
+                    f["child"] = ctx.rng.choice(ps)
+            else:
+                f = {"parents": [ctx.rng.choice(names[:6]) for _ in range(ctx.rng.randint(0, 4))],
+                     "proportions": [ctx.rng.choice(dy[:9]) if ctx.rng.random() < 0.9 else ctx.rng.choice(dy)
+                                     for _ in range(ctx.rng.randint(0, 4))],
+                     "child": ctx.rng.choice(names), "time": ctx.rng.choice(tms)}
+            out.append((k, f))
+    return out
+
+
+def run_records(ctx):
+    """second stream: accept / reject of directly constructed records, real class against the Model's predicate"""
+    grid = record_grid(ctx)
+    reps = ctx.driver.batch([record_request(k, f) for k, f in grid])
+    for (kind, fields), r in zip(grid, reps):
+        real, exc = real_record_accepts(kind, fields)
+        model = r.get("ok")
+        ctx.count({"record": kind, "fields": fields}, True,
+                  tags=[f"record:{kind}:{'accepted' if real else 'refused'}"])
+        ctx.compared += 1
+        if model is not real:
+            ctx.disagreement("record_ok", {"kind": kind, "fields": fields, "reproduce": record_repro(kind, fields)},
+                             {"accepts": real, "exception": exc}, r)
+
+
+def near_one_corpus():
+    """valid graphs whose merger / admixture proportions sum to 1 only within the tolerance of the validators
+    (1 ± 2⁻³¹, exactly representable): the record classes must accept what `Deme` accepted"""
+    out = []
+    for e in (2.0 ** -31, -(2.0 ** -31)):
+        for b_end in (50, 20):                      # B ends when C starts (merger) / later (admixture)
+            for props, anc in (([0.5, 0.5 + e], ["A", "B"]), ([0.25, 0.25, 0.5 + e], ["A", "B", "X"])):
+                doc = {"time_units": "generations",
+                       "demes": [{"name": "A", "epochs": [{"start_size": 100, "end_time": 50}]},
+                                 {"name": "B", "epochs": [{"start_size": 100, "end_time": b_end}]},
+                                 {"name": "X", "epochs": [{"start_size": 100, "end_time": 50}]},
+                                 {"name": "C", "ancestors": anc, "proportions": props, "start_time": 50,
+                                  "epochs": [{"start_size": 100, "end_time": 0}]}]}
+                c = impl.resolve(doc)
+                if c[0] == "ok":
+                    out.append((doc, c[2], ["corpus:near_one"]))
+    return out
+
+
 def run(ctx):
+    run_records(ctx)
     n = 1200 if ctx.tier == "quick" else 20000
     done = 0
+    first = True
     while done < n and ctx.time_left() > 5:
         batch = gen_valid_graphs(ctx, min(300, n - done), corpus=True, max_demes=7 if ctx.tier == "quick" else 10)
+        if first:
+            batch = near_one_corpus() + batch
+            first = False
         done += len(batch)
         reqs = []
         for doc, g, _ in batch:
             ga = enc(g.asdict())
             reqs.append({"op": "pred_succ", "graph": ga})
             reqs.append({"op": "events", "graph": ga})
+            reqs.append({"op": "events_checked", "graph": ga})
         reps = ctx.driver.batch(reqs)
+        recs = []          # (document, kind, fields) of every record the real call returned
         for i, (doc, g, _) in enumerate(batch):
-            r1, r2 = reps[2 * i], reps[2 * i + 1]
+            r1, r2, r3 = reps[3 * i], reps[3 * i + 1], reps[3 * i + 2]
             try:
                 pred, succ, ev = g.predecessors(), g.successors(), g.discrete_demographic_events()
             except Exception as e:  # noqa: BLE001  a view of a valid graph must exist
@@ -92,6 +226,12 @@ def run(ctx):
                     ok = ok and [(b.parents, canon(b.proportions), b.child, canon(b.time)) for b in ev[key]] == [(b["parents"], dec(b["proportions"]), b["child"], dec(b["time"])) for b in mine[key]]
             if not ok:
                 ctx.disagreement("pred_succ/events", {"document": doc}, None, [r1, r2])
+            if r3 != r2:
+                # the Model's validating function: on a valid graph it returns what the unchecked one returns
+                ctx.disagreement("events_checked", {"document": doc}, "the real call returned", [r2, r3])
+            for key, kind in EVENT_KIND.items():
+                for rec in ev[key]:
+                    recs.append((doc, kind, record_fields(kind, rec)))
             why = spec_check(g, pred, succ, ev)
             if why is None and i % 4 == 0 and len(g.demes) > 1:
                 # the views of a RENAMED copy of a graph whose views have just been computed (a swap of two names
@@ -112,11 +252,23 @@ def run(ctx):
             if why:
                 ctx.violation("ancestry views: " + why, {"document": doc},
                               python=py_repro(doc, "g.predecessors(), g.successors(), g.discrete_demographic_events()"))
+        # every record the real call returned passes the Model's validation of its class
+        rreps = ctx.driver.batch([record_request(kind, fields) for _, kind, fields in recs])
+        for (doc, kind, fields), r in zip(recs, rreps):
+            ctx.compared += 1
+            if r.get("ok") is not True:
+                ctx.disagreement("record_ok(returned record)", {"document": doc, "kind": kind, "fields": fields},
+                                 "returned by discrete_demographic_events()", r)
 
 
 def replay(ctx, payload):
     import demes
-    g = demes.Graph.fromdict(payload["input"]["document"])
+    inp = payload["input"]
+    if "document" not in inp:          # a directly constructed record
+        print(inp["kind"], inp["fields"], "real class:", real_record_accepts(inp["kind"], inp["fields"]),
+              "Model:", ctx.driver.batch([record_request(inp["kind"], inp["fields"])]))
+        return 0
+    g = demes.Graph.fromdict(inp["document"])
     print(g.predecessors(), g.successors(), g.discrete_demographic_events())
     print(spec_check(g, g.predecessors(), g.successors(), g.discrete_demographic_events()))
     return 0
